@@ -13,7 +13,9 @@
 //  4. lists every send site (calls of console.Conn.Send/IssueCmd/SendCmd/GetCmdOutput, the
 //     HTTP client and its wrappers) of the module with the node of the enclosing function and
 //     its argument: a string literal (also through a local variable assigned exactly once
-//     from a literal) or the expression text.
+//     from a literal) or the expression text;
+//  5. (writers.go) finds every device-I/O call by TYPE and every call of a function that hands
+//     one of its parameters on to such a call (carriers), with one row per data argument.
 //
 // Output: lean/NA/Gen/CallGraph.lean.  Anything unexpected (a root or an ApplyCommands
 // implementation missing from the graph, a send site in a function the graph does not know,
@@ -188,6 +190,7 @@ func main() {
 	flag.Parse()
 	goDir := filepath.Join(*repo, "go")
 
+	pkgsCh := loadPackages(goDir)
 	cmd := exec.Command("callgraph", "-algo=vta", "-format={{.Caller}} -> {{.Callee}}", "./cmd/drc", "./cmd/do-approve")
 	cmd.Dir = goDir
 	cmd.Stderr = os.Stderr
@@ -369,6 +372,38 @@ func main() {
 		}
 	}
 
+	// writer sites by type (writers.go)
+	rawMod := map[string]map[string]bool{}
+	for u, vs := range adj {
+		if !strings.Contains(u, mod) {
+			continue
+		}
+		for v := range vs {
+			if strings.Contains(v, mod) {
+				if rawMod[u] == nil {
+					rawMod[u] = map[string]bool{}
+				}
+				rawMod[u][v] = true
+			}
+		}
+	}
+	wrows, carriers := analyseWriters(<-pkgsCh, rawMod)
+	for _, r := range wrows {
+		if _, ok := idx[r.fn]; !ok {
+			problem("writer site %s (%s %q) in %s: function is not a node of the call graph", r.callee, r.kind, r.text, r.fn)
+		}
+	}
+	var carrierNames []string
+	for c := range carriers {
+		if _, ok := idx[c]; ok {
+			carrierNames = append(carrierNames, c)
+		}
+	}
+	sort.Strings(carrierNames)
+	if len(wrows) < 10 {
+		problem("only %d writer sites found: type information incomplete?", len(wrows))
+	}
+
 	if len(problems) > 0 {
 		for _, p := range problems {
 			fmt.Fprintln(os.Stderr, "callgraph:", p)
@@ -455,6 +490,39 @@ func main() {
 			b.WriteString(",")
 		}
 		fmt.Fprintf(&b, "\n  (%d, %s, %s, %s, %v, %s)", idx[s.fn], leanStr(short(s.fn)), leanStr(s.pkg), leanStr(s.prim), s.isLit, leanStr(s.arg))
+	}
+	b.WriteString("]\n\n")
+	b.WriteString("/-- One data argument of one call that can hand data to the device connection (found by type, see\ntranslate/callgraph/writers.go): `node`/`fn` the enclosing function, `callee` the device-I/O function or\nthe carrier called, `cls` send | connect | exec | assemble | carrier | carrier-dyn | method-value |\nunclassified, `arg` the index of the argument (0 for a receiver), `kind` lit | param | expr. -/\n")
+	b.WriteString("structure WSite where\n  node : Nat\n  fn : String\n  pkg : String\n  callee : String\n  cls : String\n  arg : Nat\n  kind : String\n  text : String\n  owner : String\n  pidx : Nat\n  deriving DecidableEq, Repr\n\n")
+	b.WriteString("def writerSites : List WSite := [")
+	for i, r := range wrows {
+		if i > 0 {
+			b.WriteString(",")
+		}
+		arg := r.arg
+		if arg < 0 {
+			arg = 0
+		}
+		fmt.Fprintf(&b, "\n  ⟨%d, %s, %s, %s, %s, %d, %s, %s, %s, %d⟩", idx[r.fn], leanStr(short(r.fn)), leanStr(r.pkg), leanStr(short(r.callee)),
+			leanStr(r.class), arg, leanStr(r.kind), leanStr(r.text), leanStr(short(r.owner)), r.pidx)
+	}
+	b.WriteString("]\n\n")
+	b.WriteString("/-- (node, function, parameter index): the parameter flows into a data argument of a device-I/O call -/\n")
+	b.WriteString("def carriers : List (Nat × String × Nat) := [")
+	first = true
+	for _, c := range carrierNames {
+		var is []int
+		for i := range carriers[c] {
+			is = append(is, i)
+		}
+		sort.Ints(is)
+		for _, i := range is {
+			if !first {
+				b.WriteString(",")
+			}
+			first = false
+			fmt.Fprintf(&b, "\n  (%d, %s, %d)", idx[c], leanStr(short(c)), i)
+		}
 	}
 	b.WriteString("]\n\n")
 	b.WriteString("/-- node names (documentation; the theorems use numbers) -/\ndef reachableNames : List String := [")
